@@ -802,6 +802,11 @@ func (vfs *OrefaFS) Rename(oldname, newname string) error {
 		return &os.LinkError{Op: op, Old: oldname, New: newname, Err: err}
 	}
 
+	if oChild.mode.IsDir() && strings.HasPrefix(nAbsPath, oAbsPath+string(vfs.PathSeparator())) {
+		// A directory can't be moved to a subdirectory of itself.
+		return &os.LinkError{Op: op, Old: oldname, New: newname, Err: vfs.err.InvalidArgument}
+	}
+
 	nParent.mu.Lock()
 	defer nParent.mu.Unlock()
 
